@@ -15,14 +15,15 @@ def main():
     prop, n = sys.argv[1], sys.argv[2]
     wt = sys.argv[3] if len(sys.argv) > 3 else '/tmp/mmwt/%s' % prop
     label = sys.argv[4] if len(sys.argv) > 4 else ''
-    src = os.path.join(wt, 'MUTANTS', n)
+    MD = os.environ.get('MUTANTS_DIR', 'MUTANTS')
+    src = os.path.join(wt, MD, n)
     out = {'property': prop, 'mutant': n, 'worktree': wt}
     env = dict(os.environ, PYTHONPATH=wt, BASELINE_JOBS=os.environ.get('BASELINE_JOBS', '4'))
     sh('git checkout -q -- matched_markets', wt)
-    rc, o = sh('/venv/bin/python MUTANTS/%s/demo.py' % n, wt, env)
+    rc, o = sh('/venv/bin/python %s/%s/demo.py' % (MD, n), wt, env)
     out['demo_pristine_exit'] = rc
     out['demo_pristine_tail'] = o.strip().splitlines()[-1:] if o.strip() else []
-    rc, o = sh('git apply MUTANTS/%s/patch.diff' % n, wt)
+    rc, o = sh('git apply %s/%s/patch.diff' % (MD, n), wt)
     out['patch_applies'] = rc == 0
     if rc != 0:
         out['error'] = o[-400:]
@@ -32,7 +33,7 @@ def main():
         rc, o = sh('python3 /verif/tools/baseline.py %s' % wt, wt, env)
         out['suite_ok'] = rc == 0
         out['suite_tail'] = o.strip().splitlines()[-1:]
-        rc, o = sh('/venv/bin/python MUTANTS/%s/demo.py' % n, wt, env)
+        rc, o = sh('/venv/bin/python %s/%s/demo.py' % (MD, n), wt, env)
         out['demo_mutated_exit'] = rc
         out['demo_mutated_tail'] = [l[:300] for l in o.strip().splitlines()[-3:]]
         sh('git checkout -q -- matched_markets', wt)
